@@ -144,29 +144,25 @@ func rfc3339(ts int64) string { return time.Unix(0, ts).UTC().Format(time.RFC333
 // member of a Loki JSON stream object, in the order it was written
 type member struct {
 	kind    string // lbl | ent | other
-	text    string
+	node    JKV
 	labels  []KV
 	entries []LEntry
 }
 
-func shuffleMembers(r *rand.Rand, ms []member) string {
+func shuffledObject(r *rand.Rand, ms []JKV) JV {
 	r.Shuffle(len(ms), func(i, j int) { ms[i], ms[j] = ms[j], ms[i] })
-	parts := make([]string, len(ms))
-	for i, m := range ms {
-		parts[i] = m.text
-	}
-	return "{" + strings.Join(parts, ",") + "}"
+	return JV{K: "obj", O: ms}
 }
 
 func lokiLabelMember(r *rand.Rand, l []KV) member {
 	if labelsAreIdents(l) && r.Intn(2) == 0 {
-		return member{kind: "lbl", labels: l, text: `"labels":` + js(Str(lokiLabelString(l)))}
+		return member{kind: "lbl", labels: l, node: kv("labels", jS(lokiLabelString(l)))}
 	}
-	kv := make([]string, len(l))
+	ms := make([]JKV, len(l))
 	for i, x := range l {
-		kv[i] = js(x.K) + ":" + js(x.V)
+		ms[i] = kv(string(x.K), jS(string(x.V)))
 	}
-	return member{kind: "lbl", labels: l, text: `"stream":{` + strings.Join(kv, ",") + "}"}
+	return member{kind: "lbl", labels: l, node: kv("stream", jO(ms...))}
 }
 
 func lokiEntryMember(r *rand.Rand, es []LEntry) member {
@@ -178,50 +174,54 @@ func lokiEntryMember(r *rand.Rand, es []LEntry) member {
 		}
 	}
 	if allLines && r.Intn(3) != 0 {
-		vs := make([]string, len(es))
+		vs := make([]JV, len(es))
 		for i, e := range es {
-			el := []string{`"` + strconv.FormatInt(e.Ts, 10) + `"`, js(*e.Line)}
+			el := []JV{jS(strconv.FormatInt(e.Ts, 10)), jS(string(*e.Line))}
 			if e.Val != nil {
-				el = append(el, jfloat(*e.Val))
+				el = append(el, jN(jfloat(*e.Val)))
 			} else if r.Intn(4) == 0 {
-				el = append(el, `{"trace_id":"abc"}`) // structured metadata: skipped by the decoder
+				el = append(el, jO(kv("trace_id", jS("abc")))) // structured metadata: skipped by the decoder
 			}
-			vs[i] = "[" + strings.Join(el, ",") + "]"
+			if len(el) == 3 && r.Intn(8) == 0 {
+				el = append(el, jA(jN("1")), JV{K: "null"}) // further elements are skipped
+			}
+			vs[i] = jA(el...)
 		}
-		return member{kind: "ent", entries: es, text: `"values":[` + strings.Join(vs, ",") + "]"}
+		return member{kind: "ent", entries: es, node: kv("values", jA(vs...))}
 	}
-	xs := make([]string, len(es))
+	xs := make([]JV, len(es))
 	for i, e := range es {
-		key := `"ts"`
+		key := "ts"
 		if r.Intn(2) == 0 {
-			key = `"timestamp"`
+			key = "timestamp"
 		}
 		var tsv string
 		if r.Intn(2) == 0 { // negative nanoseconds are written as integers too (rejected before fix e276684)
-			tsv = `"` + rfc3339(e.Ts) + `"`
+			tsv = rfc3339(e.Ts)
 		} else {
-			tsv = `"` + strconv.FormatInt(e.Ts, 10) + `"`
+			tsv = strconv.FormatInt(e.Ts, 10)
 		}
-		m := []string{key + ":" + tsv}
+		m := []JKV{kv(key, jS(tsv))}
 		if e.Line != nil {
-			m = append(m, `"line":`+js(*e.Line))
+			m = append(m, kv("line", jS(string(*e.Line))))
 		}
 		if e.Val != nil {
-			m = append(m, `"value":`+jfloat(*e.Val))
+			m = append(m, kv("value", jN(jfloat(*e.Val))))
 		}
 		if r.Intn(5) == 0 {
-			m = append(m, `"unknown":[1,{"a":null}]`)
+			m = append(m, kv("unknown", jA(jN("1"), jO(kv("a", JV{K: "null"})))))
 		}
-		xs[i] = objectOf(r, m)
+		xs[i] = shuffledObject(r, m)
 	}
-	return member{kind: "ent", entries: es, text: `"entries":[` + strings.Join(xs, ",") + "]"}
+	return member{kind: "ent", entries: es, node: kv("entries", jA(xs...))}
 }
 
-// lokiJSON writes every stream as an object whose members come in an order drawn from r; with Split set the
-// labels and/or the entries are spread over two members (a repeated "stream" key, "values" next to "entries").
-// c.members records what was written, in order (the model's member list).
+// lokiJSON builds the document of the push as a tree: every stream an object whose members come in an order drawn from
+// r; with Split set the labels and/or the entries are spread over two members (a repeated "stream" key, "values" next
+// to "entries"). c.members records what was written, in order (the model's member list); c.doc is the tree, the wire
+// text its rendering. With Damage set one edit is applied to the tree (the body of the case then means nothing).
 func lokiJSON(c *Case, r *rand.Rand) []byte {
-	var streams []string
+	var streams []JV
 	c.members = nil
 	for _, s := range c.Body.Loki {
 		var ms []member
@@ -238,16 +238,28 @@ func lokiJSON(c *Case, r *rand.Rand) []byte {
 			ms = append(ms, lokiEntryMember(r, s.Entries))
 		}
 		if r.Intn(6) == 0 {
-			ms = append(ms, member{kind: "other", text: `"extra":{"x":[1,2,3]}`})
+			ms = append(ms, member{kind: "other", node: kv("extra", jO(kv("x", jA(jN("1"), jN("2"), jN("3")))))})
 		}
-		streams = append(streams, shuffleMembers(r, ms))
+		r.Shuffle(len(ms), func(i, j int) { ms[i], ms[j] = ms[j], ms[i] })
+		nodes := make([]JKV, len(ms))
+		for i, m := range ms {
+			nodes[i] = m.node
+		}
+		streams = append(streams, JV{K: "obj", O: nodes})
 		c.members = append(c.members, ms)
 	}
-	top := []string{`"streams":[` + strings.Join(streams, ",") + "]"}
+	top := []JKV{kv("streams", jA(streams...))}
 	if r.Intn(5) == 0 {
-		top = append(top, `"meta":"ignored"`)
+		top = append(top, kv("meta", jS("ignored")))
 	}
-	return []byte(objectOf(r, top))
+	doc := shuffledObject(r, top)
+	if c.Damage {
+		doc, _ = damageDoc(r, doc, 0)
+	}
+	c.doc = &doc
+	var sb strings.Builder
+	doc.render(&sb)
+	return []byte(sb.String())
 }
 
 func floorDivMod(a, b int64) (int64, int64) {
